@@ -968,7 +968,10 @@ fn check_ctor_state(run: &mut Run, h: &Header, a: &Alpha) {
         Kind::Lru if !conversion => Some(vec![h.sizes[0] as i64]),
         Kind::Slru => Some(vec![h.sizes[0] as i64, h.sizes[1] as i64]),
         Kind::Arc => Some(vec![h.sizes[0] as i64, 0]),
-        Kind::Wtlfu => Some(vec![h.sizes[0] as i64, h.sizes[1] as i64, h.sizes[2] as i64]),
+        // `WTinyLFUCache::new(size, samples)` derives its segment sizes by ratios no property
+        // pins down: only explicitly configured sizes are compared
+        Kind::Wtlfu if !(h.random_state && h.ctor != 0) => Some(vec![h.sizes[0] as i64, h.sizes[1] as i64, h.sizes[2] as i64]),
+        Kind::Wtlfu => None,
         _ => None,
     };
     if let Some(w) = want {
